@@ -264,6 +264,11 @@ class Extract:
                     x = x.get("expr")
                 return self.const_strs(x)
         if n.get("k") == "local":
+            # `let table = ["A", "B"];` : an immutable binding of a constant table is that table
+            from .facts import CN_INIT
+            init = CN_INIT.get(n.get("name") or "")
+            if init is not None:
+                return self.const_strs(init)
             return None
         return None
 
@@ -622,6 +627,11 @@ class Extract:
         """formula for `e` (an Option expression) being Some"""
         x = peel(e)
         if isinstance(x, dict):
+            if x.get("k") == "mcall" and x.get("m") in ("first", "last") and not x.get("args"):
+                # v.first() is Some exactly when v is not empty
+                pv = self.place(x.get("recv"), env)
+                if pv:
+                    return self.atom("GE(len(%s),1)" % pv)
             pl = self.place(x, env)
             if pl:
                 return self.atom("P(%s)" % pl)
@@ -675,6 +685,12 @@ class Extract:
             cur = pc
             for s in n.get("stmts") or []:
                 if s.get("k") == "let":
+                    if s.get("els") is not None and s.get("init") is not None:
+                        # let PAT = e else { leave }: the rest runs only when the pattern matches
+                        f = self.cond({"k": "letx", "pat": s["pat"], "init": s["init"]}, env)
+                        self._rf(s["els"], f_and(cur, f_not(f)), dict(env), acc)
+                        cur = f_and(cur, f)
+                        continue
                     self.do_let(s, env)
                     continue
                 if s.get("k") == "ret":
